@@ -183,6 +183,21 @@
       C05's own oracles.  On the quick corpus (24 752 cases, 5 118 authenticated) the room guard skips
       no comparison (measured with a probe tag), and the SERVFAIL guard fires only where the former audit
       would have tagged `answer-header-differs`, which that corpus never did.
+      Towards it, (c) is done: `ServerContent.plain_answer_run` (Proofs/ServerSignedPlain.lean) — under
+      `plainComparable`, when the table after the TSIG record says "a loaded zone answers", the request
+      without its TSIG record is answered by `handle_query` on *the same scan state* as the signed
+      request's pre-TSIG state (same ID, opcode, RD, question, EDNS state, UDP limit; `strip_header`),
+      so the two runs differ exactly by `set_rcode(0)` + `set_tsig` (`signed_answer_state_of_run`).
+      (a) is done at the model level: `ServerContent.signed_handler_eq_plain_allok` — if the plain run
+      accepted every call and its result leaves room for the TSIG record (the audit's room guard) and
+      ARCOUNT below its maximum, `handle_non_axfr_query` logs exactly the same operations in the signed
+      run: same log, hence same view (RCODE, AA, TC, all three sections).  It rests on
+      Proofs/ServerAnswerFields.lean (new: every writer operation of the answering phase commutes with
+      changing `limit`, the TSIG slot and ARCOUNT + 1 — for every outcome, errors included; the one
+      place ARCOUNT is read, the overflow check, under "the final count leaves room for one more":
+      `Com`, `addRrsetOp_modS`, `comPF_inner`) and on C04's `inner_limit_independent`
+      (`signed_run_eq_plain_run_allok`, `stRcode0_scanState`: `set_rcode(NOERROR)` is the identity on
+      the scan state).
       What remains: `C10_row3_compare` (with the two guards as premises) — under the guards the two
       runs make the same calls with the same results (every call the plain run accepted fits the
       signed room, since the whole plain result plus R fits; every call the plain run rejected with
@@ -190,8 +205,18 @@
       coincide.  That two-run simulation over the writer's internals and query.rs (both directions:
       "accepted in the big room and the result fits the small one ⇒ accepted in the small one" is
       C04's `Sim`; "rejected with `Truncation` in the big room ⇒ rejected with `Truncation` in the small
-      one" and the insensitivity to the ARCOUNT / TSIG-slot / `limit` fields are not yet proved) is the
-      one missing piece of `C10_full`.
+      one" is not yet proved: it needs room-monotonicity of the writer's internals for the outcomes other
+      than `Truncation` — accepted with less room ⇒ accepted with more, same for `InvalidRdata` — plus
+      the PM-level two-run induction that carries C05's `CapPre` to know the signed run's failures are
+      `Truncation` or `InvalidRdata` only; the field insensitivity already covers failures) is one
+      missing piece of `C10_full`.  The other: C12's `finish_decodes_content` does not determine the
+      decoded (expanded) RDATA of types with compressible names (`RMatch` speaks about RDATA only for
+      layouts without one), while the audit compares `rrKey`, RDATA included, of answer and authority
+      records (NS, CNAME, SOA, MX …).  So even from identical runs the clause needs a decoder
+      congruence — two finished messages that agree on every octet except ARCOUNT and what follows the
+      common records decode to the same answer / authority sections (true because the writer emits no
+      pointer below offset 12; `NameDecode.decodes_prefix` covers only prefix extensions) — or a
+      stronger `RMatch`.
 
   Proved: (a)–(o).  Not proved, precisely:
   (1) `C10_row3` — the one obligation `C10_full` is reduced to (`C10_of_row3`): an authenticated request
@@ -266,6 +291,7 @@ import QV.Proofs.AuditDecoded
 import QV.Proofs.AuditMac
 import QV.Proofs.AuditPlain
 import QV.Proofs.ServerSignedTable
+import QV.Proofs.ServerSignedPlain
 
 namespace QV.C10
 open QV QV.Server QV.Writer QV.Tsig QV.ServerTsig
